@@ -21,16 +21,20 @@ def leaf(name):
 
 
 def modules_of(case):
+    """code_file of the modules that survive the reader's size filter, in JSON `modules` order"""
     out = []
     for t in case.split():
         if t.startswith("M="):
             f = t[2:].split(":")
+            base, size = int(f[0]), int(f[1])
+            if size == 0 or size > U64 - base:
+                continue
             name = "" if f[2] == "-" else bytes.fromhex(f[2]).decode("utf-8", "replace")
             out.append(name)
     return out
 
 
-STATS_PATH = re.compile(r"^modules\.\d+\.(loaded_symbols|missing_symbols|corrupt_symbols|symbol_url)$")
+STATS_PATH = re.compile(r"^modules\.(\d+)\.(loaded_symbols|missing_symbols|corrupt_symbols|symbol_url)$")
 
 
 class C13(PropBase):
@@ -131,6 +135,48 @@ class C13(PropBase):
             toks.append("X=%d:11:0:0:0:0:0:-" % rng.range(1, nthreads))
         return " ".join(toks)
 
+    def twin_case(self, rng, kind):
+        """kind 0: twins = same debug file + id (+ code id), different leaf names (one binary mapped under two paths);
+        kind 1: same leaf name, different directories, different ids; kind 2: same everything (duplicate entries).
+        Thread 1 starts in module C and returns into A; thread 2 starts in the twin B; C's lookup is delayed in some runs."""
+        cpu = rng.choice(["amd64", "amd64", "x86"])
+        bits = CPUS[cpu][0]
+        w = bits // 8
+        pre = "$"
+        sp = "$rsp" if cpu == "amd64" else "$esp"
+        A, B, C = 0x400000, 0x500000, 0x600000
+        size = 0x10000
+        na, nb = [("/opt/app/libfoo.so", "/var/cache/libfoo-copy.so"), ("/a/same.so", "/b/same.so"), ("/x/dup.so", "/x/dup.so")][kind]
+        da, db = [(("libfoo.so", 7), ("libfoo.so", 7)), (("same.so", 1), ("same.so", 2)), (("dup.so", 3), ("dup.so", 3))][kind]
+        def sym(name, ok=True):
+            if not ok:
+                return b"MODULE garbage\nFUNC zz\n"
+            return ("MODULE Linux %s 000000000000000000000000000000000 %s\nFUNC 0 %x 0 fn_%s\nSTACK CFI INIT 0 %x .cfa: %s %d + .ra: .cfa %d - ^\n"
+                    % (cpu, name, size, name, size, sp, w, w)).encode()
+        toks = ["cpu=" + cpu, "os=" + rng.choice(["linux", "win", "mac"]), "opt=%d" % rng.below(3)]
+        both = rng.chance(2, 3)
+        toks.append("S=" + hx(sym("foo")))
+        toks.append("S=" + hx(sym("c", ok=rng.chance(3, 4))))
+        order = [("A", A, na, da, "0"), ("B", B, nb, db, "0" if both else "-"), ("C", C, "/lib/libc.so", ("libc.so", 9), "1")]
+        if rng.chance(1, 2):
+            order = [order[2], order[1], order[0]]
+        for (_, base, name, (df, did), si) in order:
+            toks.append("M=%d:%d:%s:%s:%s:%d" % (base, size, hx(name.encode()), si, hx(df.encode()), did))
+        def stack(words):
+            return b"".join((x & ((1 << bits) - 1)).to_bytes(w, "little") for x in words)
+        ipn = "rip" if cpu == "amd64" else "eip"
+        spn = "rsp" if cpu == "amd64" else "esp"
+        t1 = stack([A + 0x120, 0x20000 + 4 * w, B + 0x300 if rng.chance(1, 2) else 0, 0, 0, 0, 0, 0])
+        t2 = stack([0x30000 + 4 * w, C + 0x88 if rng.chance(1, 2) else 0, 0, 0, 0, 0, 0, 0])
+        threads = [(1, 0x20000, t1, C + 0x40), (2, 0x30000, t2, B + 0x50)]
+        if rng.chance(1, 3):
+            threads.append((3, 0x40000, stack([B + 0x10, 0, A + 0x20, 0]), A + 0x60))
+        if rng.chance(1, 2):
+            threads.reverse()
+        for (tid, base, st, ip) in threads:
+            toks.append("T=%d:%d:%s:%s=%d,%s=%d" % (tid, base, hx(st), ipn, ip, spn, base))
+        return " ".join(toks)
+
     def gen_cases(self, tier, seed):
         rng = Rng(seed)
         g = Gen(rng)
@@ -159,6 +205,21 @@ class C13(PropBase):
             cases.append(self.shared_modules_case(rng) + " " + self.sched_suffix(rng))
             cases.append(self.shared_modules_case(rng, alias=True) + " " + self.sched_suffix(rng))
             cases.append(self.shared_modules_case(rng, same_leaf=True) + " " + self.sched_suffix(rng))
+            for kind in (0, 0, 1, 2):
+                cases.append(self.twin_case(rng, kind) + " " + self.sched_suffix(rng))
+            # amd64 crash on an instruction whose memory operand names two or three registers, each one bit away
+            # from null or from a mapped region: several register-derived bit-flip candidates, in a fixed order
+            for _ in range(2):
+                ins = rng.choice(["488b0411", "488b04d1", "48890c13", "ff3411", "488b441108", "4a8b0401", "48030411", "488b0413"])
+                vals = []
+                while len(vals) < 4:
+                    v = rng.choice([1 << rng.below(47), (1 << rng.below(40)) | (1 << rng.below(40)), 0x7000 ^ (1 << rng.below(47)), 0x10, 0x40000000])
+                    if v not in vals:
+                        vals.append(v)
+                regs = "rip=4194304,rsp=65536,rcx=%d,rdx=%d,rbx=%d,r8=%d,rax=%d" % (vals[0], vals[1], vals[2], vals[3], vals[0])
+                mi = " I=28672:4096:4" if rng.chance(1, 2) else ""
+                cases.append("cpu=amd64 os=%s opt=%d T=1:65536:z64:rip=4194304,rsp=65536 X=1:%d:0:%d:0:0:0:%s R=4194304:%s%s %s"
+                             % (rng.choice(["linux", "win", "mac"]), rng.below(3), rng.choice([11, 0xC0000005]), rng.choice([0, vals[0] + vals[1]]), regs, ins, mi, self.sched_suffix(rng)))
             # many limits lines
             lines = ["Limit  Soft Limit  Hard Limit  Units"] + ["Max %s%d  %s  %s  %s" % (rng.choice(["cpu", "files", "x"]), rng.below(40), rng.choice(["unlimited", "1024", "0"]), rng.choice(["unlimited", "4096"]), rng.choice(["bytes", "files", ""])) for _ in range(rng.range(2, 24))]
             cases.append("cpu=x86 os=linux opt=%d T=1:65536:z64:eip=4194320,esp=65536 limits=%s %s" % (rng.below(3), hx(("\n".join(lines) + "\n").encode()), self.sched_suffix(rng)))
@@ -167,7 +228,7 @@ class C13(PropBase):
             evil = '{"ModuleSignatureInfo":"{%s}","CPUMicrocodeVersion":"0x1f"}' % certs
             cases.append("cpu=x86 os=win opt=2 M=4194304:4096:%s:- M=8388608:4096:%s:- T=1:65536:z64:eip=4194320,esp=65536 evil=%s %s"
                          % (hx(b"C:\\x\\mod.dll"), hx(b"C:\\y\\other1.dll"), hx(evil.encode()), self.sched_suffix(rng)))
-        dist["families"] = {"shared_modules": n_fam, "arm64_alias_cfi": n_fam, "same_leaf": n_fam, "many_limits": n_fam, "evil_certs": n_fam}
+        dist["families"] = {"shared_modules": n_fam, "arm64_alias_cfi": n_fam, "same_leaf": n_fam, "many_limits": n_fam, "evil_certs": n_fam, "twin_modules_same_ids": 2 * n_fam, "same_leaf_other_ids": n_fam, "duplicate_modules": n_fam, "bitflip_multi_register": 2 * n_fam}
         order = list(range(len(cases)))
         for i in range(len(order) - 1, 0, -1):
             j = rng.below(i + 1)
@@ -193,10 +254,16 @@ class C13(PropBase):
             return None
         paths = d.get("diff", "-").split(",")
         msg = "nondeterministic output (%s distinct renderings in %s runs); differs in: %s" % (d["n"], d.get("runs"), ",".join(paths))
+        # F-C13c class: ONLY stats fields differ, and EVERY module whose stats differ has a namesake: another
+        # module of the dump with a different code_file but the same leaf name (the key of Symbolizer.stats)
         names = modules_of(case)
-        shared = sorted({leaf(a) for i, a in enumerate(names) for b in names[i + 1:] if a != b and leaf(a) == leaf(b)})
-        if shared and all(STATS_PATH.match(p) for p in paths):
-            msg += "; only symbol-stats fields, and two modules share the leaf name %r" % shared[0]
+        ms = [STATS_PATH.match(p) for p in paths]
+        if ms and all(ms) and len(paths) < 32:
+            idx = sorted({int(m.group(1)) for m in ms})
+            def namesake(i):
+                return i < len(names) and any(j != i and names[j] != names[i] and leaf(names[j]) == leaf(names[i]) for j in range(len(names)))
+            if idx and all(namesake(i) for i in idx):
+                msg += "; only symbol-stats fields of modules that share the leaf name %r with another module" % leaf(names[idx[0]])
         return msg
 
     def nontrivial(self, case, ans):
